@@ -44,6 +44,9 @@ type scanner struct {
 
 	logger      *slog.Logger
 	renewCancel context.CancelFunc
+
+	// errored is set once an error has been returned by Next
+	errored bool
 }
 
 func (s *scanner) fetch() ([]*pb.Result, error) {
@@ -165,6 +168,19 @@ func toLocalResult(r *pb.Result) *hrpc.Result {
 }
 
 func (s *scanner) Next() (*hrpc.Result, error) {
+	if s.errored {
+		// the error (or cancellation) has already been returned,
+		// there is nothing else to return
+		return nil, io.EOF
+	}
+	res, err := s.next()
+	if err != nil && err != io.EOF {
+		s.errored = true
+	}
+	return res, err
+}
+
+func (s *scanner) next() (*hrpc.Result, error) {
 	var (
 		result, partial *pb.Result
 		err             error
